@@ -47,8 +47,25 @@ def _class_values(pc: str, rc: str):
 
 
 def check_codec(ctx: Ctx):
+    from .c09 import pair_encoders
+
+    anchor = None
+    for f in pair_encoders(ctx.prog):
+        if anchor is None:
+            anchor = _check_codec(ctx, f, True)
+        else:
+            try:
+                _check_codec(ctx, f, False)
+            except (Undecided, AnchorMissing) as e:
+                ctx.undecided("R03.1", f, f.node, f"{f.qual}:analysis", f"{type(e).__name__}: {e}")
+    return anchor
+
+
+def _check_codec(ctx: Ctx, f, is_anchor: bool):
+    """the anchor returns exactly the (ref, pred) pairs that overlap; a further helper of the same signature
+    (contingency counts, ...) may report other combinations and further columns, but what it reports as labels
+    must be the generic voxel's own two labels"""
     prog = ctx.prog
-    f = prog.func("_functionals:_calc_overlapping_labels")
     params = [p.name for p in f.params]
     role = {}
     for p in params:
@@ -93,6 +110,29 @@ def check_codec(ctx: Ctx):
             got = out.value
             dec_txt = [(norm(n) if isinstance(n, ast.AST) else "?", d) for n, v, d in out.decisions]
             ok = None
+            if not is_anchor:
+                recs = got if isinstance(got, list) else None
+                if recs is None or not all(isinstance(t, tuple) and len(t) >= 2 for t in recs):
+                    ctx.undecided("R03.1", f, f.node, construct, f"unmodelled result of the pair helper {got!r}"[:200])
+                    continue
+                bad = None
+                for t in recs:
+                    labs = [x.poly for x in t if isinstance(x, PV)]
+                    if len(labs) < 2:
+                        bad = ("?", t)
+                    elif labs[:2] not in ([R, P], [P, R]):
+                        bad = ("!", t)
+                if bad is None:
+                    n_ok += 1
+                    ctx.ok("R03.1", f, f.node, construct, f"every reported combination names the voxel's own labels ({_fmt([(R, P)])})")
+                elif bad[0] == "?":
+                    ctx.undecided("R03.1", f, f.node, construct, f"record without two label columns: {bad[1]!r}"[:200])
+                else:
+                    w = _path_witness(out) if out.decisions else {}
+                    if w is None:
+                        continue
+                    ctx.violated("R03.1", f, f.node, construct, f"pair helper reports labels {tuple(x.poly for x in bad[1] if isinstance(x, PV))!r} for a voxel with (ref, pred) = ({R!r}, {P!r})", {"valuation": w, "decisions": dec_txt, "notes": notes_by_out.get(id(out))})
+                continue
             if isinstance(got, list) and all(isinstance(t, tuple) and len(t) == 2 and all(isinstance(x, PV) for x in t) for t in got):
                 gotp = [(t[0].poly, t[1].poly) for t in got]
                 ok = gotp == want
